@@ -6,6 +6,8 @@ props = [json.loads(l) for l in open(f"{V}/properties.jsonl")]
 ids = [p["id"] for p in props]
 checks, have = [], set()
 for mf in sorted(glob.glob(f"{V}/engine/checks/*/meta.json")):
+    if not os.path.exists(os.path.join(os.path.dirname(mf), "READY")):
+        continue  # not reviewed/accepted by the coordinator yet
     m = json.load(open(mf))
     pid = m["property_id"]
     have.add(pid)
